@@ -1,3 +1,4 @@
+import WzVerif.Driver.PyPrelude
 import WzVerif.Driver.Proto
 import WzVerif.Model.Multipart
 namespace Wz.Driver.C01
@@ -140,6 +141,6 @@ def handle : Handler
         | .ok (val, opts) => outStr val ++ "|" ++ outHeaders opts
         | .error e => "EXC:" ++ e)
     | none => some badArgs
-  | _, _ => none
+  | cmd, args => Wz.Driver.PyPrelude.handle cmd args
 
 end Wz.Driver.C01
